@@ -222,6 +222,7 @@ def run(ctx):
         c02_frame.run_frame(ctx)
         c02_frame.run_frame_writers(ctx)
         c02_frame.run_login_writers(ctx)
+        c02_frame.run_expect_gate(ctx)
         c02_frame.run_header_structs(ctx)
     except ImportError:
         ctx.assume("frame.* rules not built yet")
